@@ -6,6 +6,7 @@ use crate::vcore::dso::*;
 use crate::vcore::dumper::mapping;
 use minidump_writer::mem_writer::Buffer;
 use minidump_writer::minidump_writer::DirectAuxvDumpInfo;
+#[cfg(feature = "internals")]
 use minidump_writer::verif_api::{write_dso_debug_stream, AuxvDumpInfo};
 use proptest::prelude::*;
 use serde::{Deserialize, Serialize};
@@ -13,6 +14,15 @@ use serde_json::Value;
 
 pub const LEVEL: &str = "exploration";
 
+pub const NO_INTERNALS: &str = "harness built without its internal-interface parts (they do not compile against this tree)";
+
+#[cfg(not(feature = "internals"))]
+pub fn run_dso(_c: &DsoCase) -> Result<(Result<(Vec<u8>, u32, u32), String>, Expect), String> {
+    let _ = (Buffer::with_capacity(0), DirectAuxvDumpInfo::default());
+    Err(NO_INTERNALS.into())
+}
+
+#[cfg(feature = "internals")]
 pub fn run_dso(c: &DsoCase) -> Result<(Result<(Vec<u8>, u32, u32), String>, Expect), String> {
     with_arena(|a| {
         let (phnum, phdr, exp) = lay_out(c, a);
@@ -591,6 +601,66 @@ pub fn check_degenerate(c: &DegCase) -> Verdict {
 }
 
 // ---------------------------------------------------------------------------
+// the caller asks for a dump of its own process
+// ---------------------------------------------------------------------------
+
+#[derive(Debug, Clone, PartialEq, Eq, Hash, Serialize, Deserialize)]
+pub struct SelfCase {
+    /// bit 0 request from a second thread, bit 1 blame the calling thread, bit 2 size limit,
+    /// bit 3 sanitize, bit 4 stop timeout 0
+    pub bits: u8,
+}
+
+pub fn check_self(c: &SelfCase) -> Verdict {
+    // in a sacrificial child: a writer that stops the process it runs in freezes that process
+    let mut child = match std::process::Command::new(crate::vcore::helpers::helper_exe())
+        .args(["helper", "selfdump", &(c.bits % 32).to_string()])
+        .stdin(std::process::Stdio::null())
+        .stdout(std::process::Stdio::piped())
+        .stderr(std::process::Stdio::null())
+        .spawn()
+    {
+        Ok(c) => c,
+        Err(e) => return Verdict::Inconclusive(format!("helper: {e}")),
+    };
+    let pid = child.id() as i32;
+    let t0 = std::time::Instant::now();
+    let cpu = |pid: i32| -> f64 {
+        std::fs::read_to_string(format!("/proc/{pid}/stat")).ok().and_then(|s| { let r = s.rsplit(')').next()?.split_whitespace().map(|x| x.to_string()).collect::<Vec<_>>(); Some((r.get(11)?.parse::<f64>().ok()? + r.get(12)?.parse::<f64>().ok()?) / 100.0) }).unwrap_or(0.0)
+    };
+    loop {
+        let mut st = 0;
+        let r = unsafe { libc::waitpid(pid, &mut st, libc::WUNTRACED | libc::WNOHANG) };
+        if r == pid {
+            if libc::WIFSTOPPED(st) {
+                unsafe { libc::kill(pid, libc::SIGKILL) };
+                let _ = child.wait();
+                return Verdict::viol("C02:self-dump:dumper-stopped-itself", format!("a request to dump the caller's own process (bits {:#x}) stopped that process with signal {}: the request can never return", c.bits % 32, libc::WSTOPSIG(st)));
+            }
+            break;
+        }
+        if t0.elapsed().as_secs_f64() > 20.0 {
+            let used = cpu(pid);
+            unsafe { libc::kill(pid, libc::SIGKILL) };
+            let _ = child.wait();
+            return if used > 14.0 { Verdict::viol("C02:self-dump:hang", format!("no answer after 20 s ({used:.1} s of CPU)")) } else { Verdict::Inconclusive("self-dump helper blocked".into()) };
+        }
+        std::thread::sleep(std::time::Duration::from_millis(2));
+    }
+    let mut out = String::new();
+    use std::io::Read;
+    if let Some(mut o) = child.stdout.take() {
+        let _ = o.read_to_string(&mut out);
+    }
+    let _ = child.try_wait();
+    let line = out.lines().find(|l| l.starts_with("selfdump:")).unwrap_or("").to_string();
+    if line.contains("panic") || line.is_empty() {
+        return Verdict::viol("C02:self-dump:panic-or-abort", format!("self-dump helper (bits {:#x}) ended without an answer: '{}' ", c.bits % 32, out.trim()));
+    }
+    Verdict::pass_c(Some(fp_json(c)), vec![format!("self-dump:{}", if c.bits & 1 != 0 { "from-second-thread" } else { "from-main-thread" }), line.replace("selfdump: ", "answer:").chars().take(60).collect()])
+}
+
+// ---------------------------------------------------------------------------
 // hostile memory-map texts (names the kernel can report) through the parser the dumper uses
 // ---------------------------------------------------------------------------
 
@@ -670,6 +740,12 @@ pub fn run(ctx: &mut LaneCtx) {
         },
         check_degenerate,
     );
+    ctx.run_enum(
+        "self-dump",
+        "exhaustive: a sacrificial child process asks the writer for a dump of ITS OWN process id, from its main thread or from a second thread, blaming the main or the calling thread, x size limit x sanitize x stop timeout 0 (32 combinations); oracle = the request returns (Ok or Err) - the process neither stops itself, hangs nor dies; every case non-trivial",
+        (0u8..32).map(|bits| SelfCase { bits }),
+        check_self,
+    );
     ctx.run_sub(
         SubSpec {
             name: "dev-rule",
@@ -735,6 +811,7 @@ pub fn replay(sub: &str, case: &Value) -> Verdict {
         "live-hostile" => replay_case::<crate::props::c01::Case>(case, check_live),
         "arena-hostile-elf" => replay_case::<crate::props::c14::KitCase>(case, check_arena_elf),
         "dev-rule" => replay_case::<DevCase>(case, check_dev),
+        "self-dump" => replay_case::<SelfCase>(case, check_self),
         "degenerate-targets" => replay_case::<DegCase>(case, check_degenerate),
         "live-pivot-names" => replay_case::<PivotCase>(case, check_pivot),
         "maps-text" => replay_case::<MapsCase>(case, check_maps_text),
